@@ -12,7 +12,7 @@ TEXT = {
         "technique": "enumeration (all 2^32 day counts in thorough) and rapid draws with an arithmetic oracle (time.Unix) for the read direction, reference decoder + resolution bound for the write direction",
         "design_ref": "DESIGN.md §5 C19",
         "level_text": "date / timestamp-millis / timestamp-micros / plain long are read through Schema.Codec into time.Time and *time.Time and compared with the instant the specification assigns; written times are decoded by the reference decoder and must be the right calendar day resp. within one unit, and read back within one unit.",
-        "level_note": "Floor or truncation both accepted for timestamps; instants within 1 ms of the int64-ns limits excluded.",
+        "level_note": "Stored timestamps must equal the time truncated (rounded down) to the unit; instants within 1 ms of the int64-ns limits excluded.",
     },
     "C20": {
         "technique": "model-based property testing with rapid: registration/roundtrip histories, model = latest registration per type, marker bytes read by the reference decoder plus call counters",
@@ -96,7 +96,7 @@ TEXT = {
         "technique": "property-based testing (rapid): generated caller schemas x covering Go types x in-range values; differential oracle (reference decoder reads Codec.Write output) plus Read-after-Write inversion",
         "design_ref": "DESIGN.md §5 C13",
         "level_text": "Caller-written schemas (null first or second, every numeric width, fixed, nested records, arrays, maps, date/timestamp logical types) are paired with generated covering Go structs; every written value must decode with the reference decoder, with an exact fit, to a datum that denotes the Go value, and Codec.Read must invert it.",
-        "level_note": "Domain restricted to unions of null with one type and nullability-aligned targets (see DESIGN). Timestamps accept floor or truncation to the unit.",
+        "level_note": "Domain restricted to unions of null with one type and nullability-aligned targets (see DESIGN). Timestamps must be stored rounded down to the unit.",
     },
     "C14": {
         "technique": "property-based testing (rapid): grammar-based generation of schema documents with layout/extra-attribute metamorphosis, parse/serialise round-trip against a reference parser; native fuzz target in thorough",
